@@ -30,6 +30,8 @@ def main():
     try:
         rc, out = sh("git apply --whitespace=nowarn %s" % os.path.abspath(patch), cwd=wt)
         if rc != 0:
+            rc, out = sh("git apply --3way --whitespace=nowarn %s" % os.path.abspath(patch), cwd=wt)
+        if rc != 0:
             res["error"] = "patch does not apply: " + out[-300:]
             return res
         res["applies"] = True
